@@ -15,11 +15,17 @@ TRUSTED = ["tree built through NewNode/NewEdge + verif hooks (exact neighbour or
 ASSUMPTIONS = ["randomResolve=false only (the random resolution is not modelled)",
                "float64 counts are small integers, represented as nat in the model",
                "nucleotide alphabet only for the sequence variant (characters of align.IupacCode)"]
-LEVEL_TEXT = ("Theorems for all well-formed trees of any degree and all tip-state assignments: the up-pass step count of the "
-              "model equals the definitional minimum over all labellings (Hartigan), and is invariant under re-rooting; "
-              "see Properties/C12.v for the clauses proved about the state sets")
+LEVEL_TEXT = ("Theorems (Properties/C12.v, 30 statements, closed) for all well-formed trees of any degree and all tip-state "
+              "assignments (single states or non-empty sets): the up-pass step count = the definitional minimum over all "
+              "labellings (Hartigan); the minimum and the step count are invariant under Reroot; DOWNPASS reports at every "
+              "inner node exactly the states of the most-parsimonious labellings; DELTRAN and ACCTRAN report only such states; "
+              "an output unambiguous at every node is most parsimonious (three algorithms); tips are never altered "
+              "(ACCTRAN: when tips are skipped or hold single states; the unconditional statement is refuted with the witness "
+              "of the fixed defect); instantiated on ParsimonyAcr and per site on ParsimonyAsr")
 LEVEL_NOTE = ("The model is tied to acr/asr by the correspondence check (steps, every node comment, returned map); the oracle "
-              "(Sankoff DP + brute force on small trees, extracted from Spec/Parsimony.v) judges Go's output directly.")
+              "(Sankoff DP + brute force on small trees, extracted from Spec/Parsimony.v) judges Go's output directly. Not "
+              "proved on the model: site-by-site agreement of the sequence and the character variant (checked by the oracle on "
+              "Go's outputs only); random resolution is not modelled.")
 
 STATE_POOLS = [["A", "B", "C", "D"], ["A", "B", "C", "D"], ["0", "1", "2", "3"], ["b", "B", "10", "9"],
                ["x y", "X", "-", "ab"], ["T", "F", "N", "U"]]
